@@ -433,6 +433,18 @@ pub fn run_case(rep: &mut Report, fmt: Fmt, seed: u64, index: u64, verbose: bool
                 if xml_mode == XmlMode::Default {
                     probes.push(("rbx_xml::from_reader_default", catch(|| rbx_xml::from_reader_default(&bytes[..]).map(|d| Some(dumpd(d))).map_err(|e| e.to_string()))));
                     probes.push(("rbx_xml::from_str_default", catch(|| rbx_xml::from_str_default(&text).map(|d| Some(dumpd(d))).map_err(|e| e.to_string()))));
+                    // with known classes and properties only, the strict behaviours must agree with the lenient default
+                    probes.push(("EncodePropertyBehavior::ErrorOnUnknown", catch(|| {
+                        let mut v = vec![];
+                        rbx_xml::to_writer(&mut v, &built.dom, &sel_refs, rbx_xml::EncodeOptions::new().property_behavior(rbx_xml::EncodePropertyBehavior::ErrorOnUnknown)).map_err(|e| e.to_string())?;
+                        if v != bytes {
+                            return Err(format!("{} bytes, the default behaviour gives {}", v.len(), bytes.len()));
+                        }
+                        Ok(None)
+                    })));
+                    probes.push(("DecodePropertyBehavior::ErrorOnUnknown", catch(|| {
+                        rbx_xml::from_reader(&bytes[..], rbx_xml::DecodeOptions::new().property_behavior(rbx_xml::DecodePropertyBehavior::ErrorOnUnknown)).map(|d| Some(dumpd(d))).map_err(|e| e.to_string())
+                    })));
                     probes.push(("rbx_xml::to_writer_default", catch(|| {
                         let mut v = vec![];
                         rbx_xml::to_writer_default(&mut v, &built.dom, &sel_refs).map_err(|e| e.to_string())?;
